@@ -380,6 +380,8 @@ func Main(args []string) int {
 	d.bgvSet(bgv.ParametersLiteral{LogN: 10, LogQ: []int{50, 40}, PlaintextModulus: 12289}, "bgv-t12289-full", nil)
 	d.ckksSet(ckks.ParametersLiteral{LogN: 6, LogQ: []int{60, 50}, LogDefaultScale: 45}, "ckks-std")
 	d.ckksSet(ckks.ParametersLiteral{LogN: 6, LogQ: []int{60, 50}, LogDefaultScale: 45, RingType: ring.ConjugateInvariant}, "ckks-ci")
+	d.ckksExtra(ckks.ParametersLiteral{LogN: 6, LogQ: []int{60, 50}, LogP: []int{55, 45}, LogDefaultScale: 45}, "ckks-std")
+	d.ckksExtra(ckks.ParametersLiteral{LogN: 6, LogQ: []int{60, 50}, LogP: []int{55}, LogDefaultScale: 45, RingType: ring.ConjugateInvariant}, "ckks-ci")
 	res := tr.Result{Events: d.w.N, Cases: d.prog}
 	res.Print()
 	return 0
